@@ -52,7 +52,7 @@ func vRootMsg(method stun.Method, setters ...stun.Setter) *stun.Message {
 // NewServer: the three timeouts a server runs with are the configured ones, and the documented defaults
 // (10 min channel binding, 5 min permission, 10 min allocation) when the configuration leaves them zero.
 //
-//verif:props=C07,C06 bounds="all configured ChannelBindTimeout / PermissionTimeout / AllocationLifetime values (int64 ns, zero = unset); one UDP listener"
+//verif:props=C07,C06,C04 bounds="all configured ChannelBindTimeout / PermissionTimeout / AllocationLifetime values (int64 ns, zero = unset); one UDP listener"
 func VerifHarness_C07_new_server_defaults() {
 	cbt, pt, lt := time.Duration(vI64()), time.Duration(vI64()), time.Duration(vI64())
 	conn := &allocation.VPacketConn{Name: "listen", Local: allocation.VUDPAddr4()}
@@ -87,7 +87,7 @@ func VerifHarness_C07_new_server_defaults() {
 // server's channel timeout and the permission with its permission timeout (not swapped, not the allocation
 // lifetime), a Refresh without LIFETIME re-arms the allocation with the server's allocation lifetime.
 //
-//verif:props=C07,C06 replay=model unwind=20 bounds="a Server value with three arbitrary positive timeouts; one allocation; one authenticated datagram through the real readLoop and HandleRequest: a ChannelBind (any valid number, IPv4 peer) or a Refresh without LIFETIME"
+//verif:props=C07,C06,C09 replay=model unwind=20 bounds="a Server value with three arbitrary positive timeouts; one allocation; one authenticated datagram through the real readLoop and HandleRequest: a ChannelBind (any valid number, IPv4 peer) or a Refresh without LIFETIME"
 func VerifHarness_C07_read_loop_passes_the_servers_timeouts() {
 	cbt, pt, lt := time.Duration(vI64()), time.Duration(vI64()), time.Duration(vI64())
 	vAssume(cbt > 0)
